@@ -520,7 +520,7 @@ func c07BackendHistories(t *testing.T, e *c15Env, res *verifResult, rng *mrand.R
 	}
 	nRand, maxOps := 24, 8
 	if verifThorough() {
-		nRand, maxOps = 400, 14
+		nRand, maxOps = 150, 14
 	}
 	for kind := range c07bKindNames {
 		for i := 0; i < nRand; i++ {
